@@ -380,6 +380,46 @@ func ruleSpanSiblings(c *Ctx) {
 			}
 			return form{}, false
 		}
+		// ranges are half-open [start, end): no number a span formatter prints is the bare end
+		{
+			fn := fn
+			k := 0
+			allInstrs(fn, func(in ssa.Instruction) {
+				call, ok := in.(*ssa.Call)
+				if !ok {
+					return
+				}
+				var operands []ssa.Value
+				if sc := call.Call.StaticCallee(); sc != nil && sc.Pkg != nil && sc.Pkg.Pkg.Path() == "strconv" && sc.Name() == "Itoa" {
+					operands = call.Call.Args
+				} else if sc != nil && sc.Pkg != nil && sc.Pkg.Pkg.Path() == "fmt" && sc.Name() == "Sprintf" && len(call.Call.Args) == 2 {
+					if sl, ok := call.Call.Args[1].(*ssa.Slice); ok {
+						if al, ok := sl.X.(*ssa.Alloc); ok {
+							for _, r := range referrersOf(al) {
+								if ia, ok := r.(*ssa.IndexAddr); ok {
+									for _, r2 := range referrersOf(ia) {
+										if st, ok := r2.(*ssa.Store); ok && st.Addr == ssa.Value(ia) {
+											if mi, ok := st.Val.(*ssa.MakeInterface); ok {
+												operands = append(operands, mi.X)
+											}
+										}
+									}
+								}
+							}
+						}
+					}
+				}
+				for _, o := range operands {
+					f, ok := lin(o, 0)
+					if !ok {
+						continue
+					}
+					k++
+					c.sawFn(fnName(fn))
+					c.judge(!(f.a == 0 && f.b == 1 && f.k == 0), "R-SPAN-SIBLING", fmt.Sprintf("%s:printed number #%d", fnName(fn), k), call.Pos(), "not the bare end of the half-open range", fmt.Sprintf("%s prints the end of the half-open range [start, end) as a line number: the last line of the range is end − 1 (and a one-line range is named by its start)", fn.Name()))
+				}
+			})
+		}
 		var tests []string
 		for _, b := range fn.Blocks {
 			iff, ok := b.Instrs[len(b.Instrs)-1].(*ssa.If)
@@ -974,4 +1014,84 @@ func fromParam(v ssa.Value, p *ssa.Parameter) bool {
 func isAnyConstInt(v ssa.Value) bool {
 	_, ok := constInt(v)
 	return ok
+}
+
+// ruleRowLength (R-ROW-LENGTH): in LCSFunc the row buffers are indexed by the position in ONE input (i ≤ len(as));
+// every buffer a row variable can hold was allocated with that input's length (+ constant).  A row sized by the
+// other input is too short whenever that input is the shorter one.
+func ruleRowLength(c *Ctx) {
+	c.rule("R-ROW-LENGTH", 0, "in LCSFunc every row buffer indexed by a position bounded by len(x) was allocated from len(x)")
+	fn := c.P.Func("slice", "", "LCSFunc")
+	if fn == nil {
+		return
+	}
+	lenOfParam := func(v ssa.Value) ssa.Value {
+		if bo, ok := v.(*ssa.BinOp); ok && (bo.Op == token.ADD || bo.Op == token.SUB) {
+			if _, isK := constInt(bo.Y); isK {
+				v = bo.X
+			}
+		}
+		if ln, ok := isBuiltinCall(v, "len"); ok {
+			switch ln.Call.Args[0].(type) {
+			case *ssa.Parameter, *ssa.Phi: // an input, or the variable the inputs are swapped into
+				return ln.Call.Args[0]
+			}
+		}
+		return nil
+	}
+	done := map[string]bool{}
+	n := 0
+	allInstrs(fn, func(in ssa.Instruction) {
+		ia, ok := in.(*ssa.IndexAddr)
+		if !ok {
+			return
+		}
+		// the buffers this row variable can hold
+		var bufs []ssa.Value
+		phiLeaves(ia.X, nil, map[ssa.Value]bool{}, &bufs)
+		var allocs []*ssa.MakeSlice
+		for _, b := range bufs {
+			mk, ok := b.(*ssa.MakeSlice)
+			if !ok {
+				return
+			}
+			allocs = append(allocs, mk)
+		}
+		if len(allocs) == 0 {
+			return
+		}
+		// the input that bounds the index
+		idx := ia.Index
+		if bo, ok := idx.(*ssa.BinOp); ok && (bo.Op == token.ADD || bo.Op == token.SUB) {
+			if _, isK := constInt(bo.Y); isK {
+				idx = bo.X
+			}
+		}
+		var bound ssa.Value
+		for _, cm := range cmpsAt(ia.Block()) {
+			if cm.X == idx && (cm.Op == token.LEQ || cm.Op == token.LSS) {
+				if p := lenOfParam(cm.Y); p != nil {
+					bound = p
+				}
+			}
+		}
+		if bound == nil {
+			return
+		}
+		for _, mk := range allocs {
+			dk := fmt.Sprintf("%p/%s", mk, ksym(bound))
+			if done[dk] {
+				continue
+			}
+			done[dk] = true
+			from := lenOfParam(mk.Len)
+			if from == nil {
+				continue
+			}
+			n++
+			key := fmt.Sprintf("%s:row #%d indexed up to len(%s)", fnName(fn), n, ksym(bound))
+			c.sawFn(fnName(fn))
+			c.judge(from == bound, "R-ROW-LENGTH", key, mk.Pos(), "allocated from the length that bounds its index", fmt.Sprintf("the row is allocated from len(%s) but indexed by a position that runs up to len(%s): when %s is the longer input the index runs past the row", ksym(from), ksym(bound), ksym(bound)))
+		}
+	})
 }
